@@ -1,346 +1,8 @@
 /-
-  Props/C12.lean — equality, ordering and hashing agree with the canonical string.
-
-  * the derived `Ord` (`cmpB` on subtags, `cmpLi` on `LanguageIdentifier`, `cmpLoc` on `Locale`) is a
-    strict total order compatible with `=`, comparing field by field with an absent subtag first;
-  * the derived `Hash` feeds equal streams for equal values, and the stream determines the value;
-  * on values satisfying the representation invariant (every value the safe API can produce),
-    `x = y ↔ x.to_string() = y.to_string()` — proved outright for `LanguageIdentifier`, for
-    `Locale` from the parse/print round trip (C05) taken as an explicit hypothesis;
-  * `== &str` is comparison with the canonical text.
+  Props/C12.lean — property C12 (equality, ordering and hashing agree with the canonical string): the theorems are in
+  `C12Core.lean` (order laws, hash stream, display injectivity, `== &str`, two routes to one value, routes 0–4, 6, 7+)
+  and `C12Route5.lean` (route 5: the remove-everything-and-set-it-again history is the identity on obtainable values).
+  Both files declare into the namespace `UL.Props.C12`, which is what the audit of the C12 check enumerates.
 -/
-import UnicLocale.Lemmas.CmpOrder
-import UnicLocale.Lemmas.Parts
-import UnicLocale.Props.C05
-import UnicLocale.Props.C10
-import UnicLocale.Lemmas.Total
-import UnicLocale.Model.Routes
-import UnicLocale.Props.C17
-
-namespace UL.Props.C12
-open UL
-
-/-! ### the ordering is a strict total order compatible with equality
-
-`IsStrictTotal c` (Lemmas/CmpOrder) bundles `c a b = .eq ↔ a = b`, `c b a = (c a b).swap` and
-transitivity of `.lt`.  The liftings are proved once: `IsStrictTotal.opt` (`Option`, `None` first),
-`IsStrictTotal.list` (lexicographic), `IsStrictTotal.prod` (`Ordering.then` of two fields),
-`IsStrictTotal.comap` (a struct through the tuple of its fields). -/
-
-theorem subtag_order : IsStrictTotal cmpB := cmpB_strictTotal
-theorem langid_order : IsStrictTotal cmpLi := cmpLi_strictTotal
-theorem locale_order : IsStrictTotal cmpLoc := cmpLoc_strictTotal
-
-/-- the generic liftings, re-exported -/
-theorem option_lifting {α} {c : α → α → Ordering} (h : IsStrictTotal c) : IsStrictTotal (cmpOpt c) := h.opt
-theorem list_lifting {α} {c : α → α → Ordering} (h : IsStrictTotal c) : IsStrictTotal (cmpList c) := h.list
-theorem then_lifting {α β} {c1 : α → α → Ordering} {c2 : β → β → Ordering}
-    (h1 : IsStrictTotal c1) (h2 : IsStrictTotal c2) : IsStrictTotal (cmpProd c1 c2) := h1.prod h2
-
-/-- `cmp == Equal` exactly on equal values (so equal values compare `Equal`) -/
-theorem cmpB_eq_iff (a b : Bytes) : cmpB a b = .eq ↔ a = b := subtag_order.eq_iff a b
-theorem cmpLi_eq_iff (a b : LangId) : cmpLi a b = .eq ↔ a = b := langid_order.eq_iff a b
-theorem cmpLoc_eq_iff (a b : Locale) : cmpLoc a b = .eq ↔ a = b := locale_order.eq_iff a b
-
-/-- antisymmetry: `a < b` iff `b > a` -/
-theorem cmpB_lt_iff_gt (a b : Bytes) : cmpB a b = .lt ↔ cmpB b a = .gt := subtag_order.lt_iff_gt a b
-theorem cmpLi_lt_iff_gt (a b : LangId) : cmpLi a b = .lt ↔ cmpLi b a = .gt := langid_order.lt_iff_gt a b
-theorem cmpLoc_lt_iff_gt (a b : Locale) : cmpLoc a b = .lt ↔ cmpLoc b a = .gt := locale_order.lt_iff_gt a b
-
-/-- transitivity -/
-theorem cmpB_lt_trans (a b d : Bytes) (h1 : cmpB a b = .lt) (h2 : cmpB b d = .lt) : cmpB a d = .lt :=
-  subtag_order.lt_trans a b d h1 h2
-theorem cmpLi_lt_trans (a b d : LangId) (h1 : cmpLi a b = .lt) (h2 : cmpLi b d = .lt) : cmpLi a d = .lt :=
-  langid_order.lt_trans a b d h1 h2
-theorem cmpLoc_lt_trans (a b d : Locale) (h1 : cmpLoc a b = .lt) (h2 : cmpLoc b d = .lt) : cmpLoc a d = .lt :=
-  locale_order.lt_trans a b d h1 h2
-
-/-- totality: any two values are comparable, and incomparable-by-`<` means equal -/
-theorem cmpB_total (a b : Bytes) : cmpB a b = .lt ∨ a = b ∨ cmpB b a = .lt := subtag_order.trichotomy a b
-theorem cmpLi_total (a b : LangId) : cmpLi a b = .lt ∨ a = b ∨ cmpLi b a = .lt := langid_order.trichotomy a b
-theorem cmpLoc_total (a b : Locale) : cmpLoc a b = .lt ∨ a = b ∨ cmpLoc b a = .lt := locale_order.trichotomy a b
-
-/-- irreflexive and asymmetric -/
-theorem cmpLi_irrefl (a : LangId) : cmpLi a a ≠ .lt := langid_order.not_lt_self a
-theorem cmpLoc_irrefl (a : Locale) : cmpLoc a a ≠ .lt := locale_order.not_lt_self a
-theorem cmpLi_asymm (a b : LangId) (h : cmpLi a b = .lt) : cmpLi b a ≠ .lt := langid_order.lt_asymm a b h
-theorem cmpLoc_asymm (a b : Locale) (h : cmpLoc a b = .lt) : cmpLoc b a ≠ .lt := locale_order.lt_asymm a b h
-
-/-- subtags are ordered as their text, byte by byte -/
-theorem cmpB_lt_iff_bLt (a b : Bytes) : cmpB a b = .lt ↔ bLt a b = true := UL.cmpB_lt_iff a b
-
-/-! ### field by field, an absent subtag first -/
-
-/-- an absent subtag sorts before every present one -/
-theorem absent_first {α} (c : α → α → Ordering) (x : α) :
-    cmpOpt c none (some x) = .lt ∧ cmpOpt c (some x) none = .gt ∧ cmpOpt c (none : Option α) none = .eq :=
-  ⟨rfl, rfl, rfl⟩
-
-theorem present_by_value {α} (c : α → α → Ordering) (x y : α) : cmpOpt c (some x) (some y) = c x y := rfl
-
-/-- the language decides when it differs … -/
-theorem cmpLi_language (a b : LangId) (h : a.language ≠ b.language) :
-    cmpLi a b = cmpOpt cmpB a.language b.language := by
-  have hne : cmpOpt cmpB a.language b.language ≠ .eq := fun he => h ((subtag_order.opt.eq_iff _ _).1 he)
-  unfold cmpLi
-  cases hc : cmpOpt cmpB a.language b.language with
-  | eq => exact absurd hc hne
-  | lt => rfl
-  | gt => rfl
-
-/-- … then the script … -/
-theorem cmpLi_script (a b : LangId) (hl : a.language = b.language) (h : a.script ≠ b.script) :
-    cmpLi a b = cmpOpt cmpB a.script b.script := by
-  have hne : cmpOpt cmpB a.script b.script ≠ .eq := fun he => h ((subtag_order.opt.eq_iff _ _).1 he)
-  unfold cmpLi
-  rw [(subtag_order.opt.eq_iff _ _).2 hl]
-  cases hc : cmpOpt cmpB a.script b.script with
-  | eq => exact absurd hc hne
-  | lt => rfl
-  | gt => rfl
-
-/-- … then the region … -/
-theorem cmpLi_region (a b : LangId) (hl : a.language = b.language) (hs : a.script = b.script)
-    (h : a.region ≠ b.region) : cmpLi a b = cmpOpt cmpB a.region b.region := by
-  have hne : cmpOpt cmpB a.region b.region ≠ .eq := fun he => h ((subtag_order.opt.eq_iff _ _).1 he)
-  unfold cmpLi
-  rw [(subtag_order.opt.eq_iff _ _).2 hl, (subtag_order.opt.eq_iff _ _).2 hs]
-  cases hc : cmpOpt cmpB a.region b.region with
-  | eq => exact absurd hc hne
-  | lt => rfl
-  | gt => rfl
-
-/-- … then the variant lists (absent first, then lexicographically) -/
-theorem cmpLi_variants (a b : LangId) (hl : a.language = b.language) (hs : a.script = b.script)
-    (hr : a.region = b.region) : cmpLi a b = cmpOpt (cmpList cmpB) a.variants b.variants := by
-  unfold cmpLi
-  rw [(subtag_order.opt.eq_iff _ _).2 hl, (subtag_order.opt.eq_iff _ _).2 hs, (subtag_order.opt.eq_iff _ _).2 hr]
-  rfl
-
-/-- a `Locale` is ordered by its id first; the extensions only break ties -/
-theorem cmpLoc_id (a b : Locale) (h : a.id ≠ b.id) : cmpLoc a b = cmpLi a.id b.id := by
-  have hne : cmpLi a.id b.id ≠ .eq := fun he => h ((langid_order.eq_iff _ _).1 he)
-  unfold cmpLoc
-  cases hc : cmpLi a.id b.id with
-  | eq => exact absurd hc hne
-  | lt => rfl
-  | gt => rfl
-
-/-! ### hashing -/
-
-/-- equal values feed equal streams to the hasher, hence hash equally with any hasher -/
-theorem hash_eq_of_eq_langid (x y : LangId) (h : x = y) : hashLi x = hashLi y := congrArg hashLi h
-theorem hash_eq_of_eq_locale (x y : Locale) (h : x = y) : hashLoc x = hashLoc y := congrArg hashLoc h
-
-/-- stronger: the stream determines the value (lengths and discriminants are prefixed), so the
-    derived `Hash` distinguishes exactly what `==` distinguishes -/
-theorem hashLi_eq_iff (x y : LangId) : hashLi x = hashLi y ↔ x = y :=
-  ⟨decodable_hashLi.injective x y, congrArg hashLi⟩
-theorem hashLoc_eq_iff (x y : Locale) : hashLoc x = hashLoc y ↔ x = y :=
-  ⟨decodable_hashLoc.injective x y, congrArg hashLoc⟩
-
-/-- `==`, `cmp == Equal` and "same hash stream" coincide -/
-theorem eq_cmp_hash_agree (x y : Locale) : (x = y ↔ cmpLoc x y = .eq) ∧ (x = y ↔ hashLoc x = hashLoc y) :=
-  ⟨(cmpLoc_eq_iff x y).symm, (hashLoc_eq_iff x y).symm⟩
-
-/-! ### equality versus the canonical string -/
-
-/-- generic: if parsing is a left inverse of printing on the valid values, then on valid values
-    equality is equality of the printed text.  (Glue: instantiate `hrt` with the C05 round trip.) -/
-theorem eq_iff_display_eq_of_roundtrip {α β : Type} (inv : α → Prop) (display : α → β) (parse : β → Res α)
-    (hrt : ∀ x, inv x → parse (display x) = .ok x) (x y : α) (hx : inv x) (hy : inv y) :
-    x = y ↔ display x = display y :=
-  Parts.eq_iff_display_eq_of_roundtrip inv display parse hrt x y hx hy
-
-/-- `LanguageIdentifier`, from a round-trip hypothesis … -/
-theorem langid_eq_iff_display_eq_of_roundtrip
-    (hrt : ∀ x : LangId, x.inv = true → LangId.fromBytes (LangId.display x) = .ok x)
-    (x y : LangId) (hx : x.inv = true) (hy : y.inv = true) : x = y ↔ LangId.display x = LangId.display y :=
-  eq_iff_display_eq_of_roundtrip (fun x => LangId.inv x = true) LangId.display LangId.fromBytes hrt x y hx hy
-
-/-- … and outright: the round trip for `LanguageIdentifier` is `Parts.langid_roundtrip` -/
-theorem langid_eq_iff_display_eq (x y : LangId) (hx : x.inv = true) (hy : y.inv = true) :
-    x = y ↔ LangId.display x = LangId.display y :=
-  langid_eq_iff_display_eq_of_roundtrip (fun _ => Parts.langid_roundtrip) x y hx hy
-
-/-- `Locale`, from the round trip of C05 as an explicit hypothesis -/
-theorem locale_eq_iff_display_eq_of_roundtrip
-    (hrt : ∀ x : Locale, x.inv = true → Locale.fromBytes (Locale.display x) = .ok x)
-    (x y : Locale) (hx : x.inv = true) (hy : y.inv = true) : x = y ↔ Locale.display x = Locale.display y :=
-  eq_iff_display_eq_of_roundtrip (fun x => Locale.inv x = true) Locale.display Locale.fromBytes hrt x y hx hy
-
-/-- the `Locale` case with the round trip of C05 plugged in: on values obtainable through the safe
-    API equality is equality of the canonical strings -/
-theorem locale_eq_iff_display_eq (x y : Locale) (hx : x.inv = true) (hy : y.inv = true) :
-    x = y ↔ Locale.display x = Locale.display y :=
-  locale_eq_iff_display_eq_of_roundtrip UL.Props.C05.locale_roundtrip x y hx hy
-
-/-- the invariant is needed: `None` and `Some([])` print the same text but are different values
-    (no safe constructor produces the second) -/
-example : LangId.display { language := some [101, 110], variants := some [] } =
-            LangId.display { language := some [101, 110], variants := none } ∧
-          ({ language := some [101, 110], variants := some [] } : LangId) ≠
-            { language := some [101, 110], variants := none } := by decide
-
-/-- two routes to "no variants" give the same (only) representation -/
-theorem setVariants_nil_eq_clear (x : LangId) : LangId.setVariants x [] = LangId.clearVariants x := rfl
-theorem fromParts_nil (l : Language) (s r : Option Bytes) :
-    LangId.fromParts l s r [] = { language := l, script := s, region := r, variants := none } := rfl
-/-- no constructor or setter ever stores `Some([])` -/
-theorem finishVariants_ne_some_nil (vs : List Bytes) : LangId.finishVariants vs ≠ some [] := by
-  intro h
-  exact (Parts.finishVariants_canonical vs [] h).1 rfl
-
-/-! ### comparison with `&str` -/
-
-/-- `li == s` is true iff `s` is the canonical text -/
-theorem langid_eqStr_iff (x : LangId) (s : Bytes) : LangId.eqStr x s = true ↔ LangId.display x = s := by
-  unfold LangId.eqStr
-  exact beq_iff_eq
-
-theorem language_eqStr_iff (l : Language) (s : Bytes) : Language.eqStr l s = true ↔ Language.asStr l = s := by
-  unfold Language.eqStr
-  exact beq_iff_eq
-
-/-- hence two valid identifiers equal to the same string are equal -/
-theorem eq_of_eqStr (x y : LangId) (s : Bytes) (hx : x.inv = true) (hy : y.inv = true)
-    (h1 : LangId.eqStr x s = true) (h2 : LangId.eqStr y s = true) : x = y := by
-  rw [langid_eqStr_iff] at h1 h2
-  exact (langid_eq_iff_display_eq x y hx hy).2 (h1.trans h2.symm)
-
-/-! ### non-vacuity -/
-
--- "en-US" < "en-Latn" (script absent sorts first) < "fr"; und (absent language) before everything
-example : cmpLi { language := some [101, 110], region := some [85, 83] }
-                { language := some [101, 110], script := some [76, 97, 116, 110] } = .lt := by decide
-example : cmpLi { language := some [101, 110], script := some [76, 97, 116, 110] }
-                { language := some [102, 114] } = .lt := by decide
-example : cmpLi {} { language := some [97, 97] } = .lt := by decide
-example : cmpLi { language := some [102, 114] } { language := some [101, 110] } = .gt := by decide
-example : cmpB [101, 110] [102, 114] = .lt ∧ cmpB [102, 114] [122, 104] = .lt := by decide
--- locales differing only in their extensions
-example : cmpLoc { id := { language := some [101, 110] } }
-    { id := { language := some [101, 110] }, ext := { priv := [[97]] } } = .lt := by decide
-example : cmpLoc { id := { language := some [101, 110] }, ext := { priv := [[97]] } }
-    { id := { language := some [101, 110] }, ext := { priv := [[98]] } } = .lt := by decide
--- hypotheses of the `cmpLi_*` refinements
-example : ({ language := some [101, 110], region := some [85, 83] } : LangId).language =
-            ({ language := some [101, 110], script := some [76, 97, 116, 110] } : LangId).language ∧
-          ({ language := some [101, 110], region := some [85, 83] } : LangId).script ≠
-            ({ language := some [101, 110], script := some [76, 97, 116, 110] } : LangId).script := by decide
--- invariant-satisfying values with different texts / the same text
-example : LangId.inv { language := some [101, 110], script := some [76, 97, 116, 110], region := some [85, 83],
-                       variants := some [[49, 57, 57, 54], [118, 97, 108, 101, 110, 99, 105, 97]] } = true := by decide
-example : LangId.inv { language := none, region := some [52, 49, 57] } = true := by decide
-example : LangId.eqStr { language := some [101, 110], region := some [85, 83] } [101, 110, 45, 85, 83] = true := by decide
-example : LangId.eqStr { language := some [101, 110], region := some [85, 83] } [101, 110, 95, 85, 83] = false := by decide
-example : Language.eqStr none [117, 110, 100] = true := by decide
-example : Locale.inv { id := { language := some [101, 110] },
-                       ext := { unicode := { keywords := [([99, 97], [[98, 117, 100, 100, 104, 105, 115, 116]])] },
-                                priv := [[112, 114, 105, 118]] } } = true := by decide
-
-/-! ### two routes to one value
-
-The reference model of C10 forgets how a value was built: it is a record of sets and maps.  On the
-representation invariant the abstraction is injective, so whichever route through the safe API
-leads to the same abstract value leads to the same concrete value — equal under `==`, `Equal` under
-`cmp`, with the same hash stream and the same text. -/
-
-/-- the abstraction is injective on the representation invariant -/
-theorem abs_injective (x y : Locale) (hx : x.inv = true) (hy : y.inv = true) (h : UL.Rf.abs x = UL.Rf.abs y) : x = y := by
-  rw [locale_eq_iff_display_eq x y hx hy, UL.Props.C10.display_refines, UL.Props.C10.display_refines, h]
-
-/-- two histories (any operations, any argument byte strings, from any two obtainable values) that the
-    set/map reference model takes to the same abstract value end in the same concrete value -/
-theorem routes_agree (T : Tables) (hT : tablesWF T = true) (x y : Locale) (hx : x.inv = true) (hy : y.inv = true)
-    (os os' : List Op)
-    (h : Spec.absRunState (UL.Rf.modelLikely T) (UL.Rf.abs x) os = Spec.absRunState (UL.Rf.modelLikely T) (UL.Rf.abs y) os') :
-    runState T x os = runState T y os' := by
-  have hpres : ∀ x o, x.inv = true → (step T x o).1.inv = true := fun x o hx => UL.Reach.step_inv T x o hT hx
-  have h1 := UL.Props.C10.runState_of_pres T (UL.Rf.modelLikely T) (UL.Rf.modelLikely_agrees T) hpres x hx os
-  have h2 := UL.Props.C10.runState_of_pres T (UL.Rf.modelLikely T) (UL.Rf.modelLikely_agrees T) hpres y hy os'
-  exact abs_injective _ _ h1.2 h2.2 (by rw [h1.1, h2.1, h])
-
-/-- … hence they compare `Equal`, hash equally and print the same text -/
-theorem routes_agree_observably (T : Tables) (hT : tablesWF T = true) (x y : Locale) (hx : x.inv = true) (hy : y.inv = true)
-    (os os' : List Op)
-    (h : Spec.absRunState (UL.Rf.modelLikely T) (UL.Rf.abs x) os = Spec.absRunState (UL.Rf.modelLikely T) (UL.Rf.abs y) os') :
-    cmpLoc (runState T x os) (runState T y os') = .eq ∧ hashLoc (runState T x os) = hashLoc (runState T y os') ∧
-    Locale.display (runState T x os) = Locale.display (runState T y os') := by
-  have e := routes_agree T hT x y hx hy os os' h
-  rw [e]
-  exact ⟨(cmpLoc_eq_iff _ _).2 rfl, rfl, rfl⟩
-
--- non-vacuity: `set_attribute foo; set_attribute bar` and `set_attribute bar; set_attribute foo` from the
--- default value reach the same abstract value (checked by evaluation on a tiny table set)
-example : Spec.absRunState (UL.Rf.modelLikely UL.Tot.tinyTables) (UL.Rf.abs {})
-      [.setAttribute [102, 111, 111], .setAttribute [98, 97, 114]] =
-    Spec.absRunState (UL.Rf.modelLikely UL.Tot.tinyTables) (UL.Rf.abs {})
-      [.setAttribute [98, 97, 114], .setAttribute [102, 111, 111]] := by decide
-
-/-! ### the routes of the `route` request are the identity on obtainable values
-
-`routeValue T x k` (Model/Routes.lean) rebuilds `x` along route `k` through the safe API; the check asks the real
-crates for `==`, `cmp`, hash and text of the two.  For every value with the representation invariant the rebuilt
-value IS the value (routes 0–4, 6, 7+; route 5, the remove-and-set-again history, is covered by `routes_agree`). -/
-
-theorem setVariants_own (i : LangId) (h : i.inv = true) : i.setVariants i.variantList = i := by
-  have e := UL.Parts.fromParts_intoParts h
-  obtain ⟨l, s, r, v⟩ := i
-  simpa [LangId.setVariants, LangId.variantList, LangId.fromParts, LangId.intoParts] using e
-
-theorem route0 (T : Tables) (x : Locale) (h : x.inv = true) : routeValue T x 0 = some x := by
-  simp only [Locale.inv, Bool.and_eq_true] at h
-  simp only [routeValue, setVariants_own x.id h.1]
-
-theorem route1 (T : Tables) (x : Locale) (h : x.inv = true) : routeValue T x 1 = some x := by
-  simp only [Locale.inv, Bool.and_eq_true] at h
-  have e := setVariants_own x.id h.1
-  have e' : (x.id.clearVariants).setVariants x.id.variantList = x.id.setVariants x.id.variantList := rfl
-  simp only [routeValue, e', e]
-
-theorem route2 (T : Tables) (x : Locale) (h : x.inv = true) : routeValue T x 2 = some x := by
-  have e := UL.Props.C17.locale_parts_roundtrip x h
-  simp only [routeValue]
-  simp only at e
-  cases hm : ExtMap.fromBytes (Locale.intoParts x).2.2.2.2 with
-  | ok m => rw [hm] at e; simp only [Res.map, Res.ok.injEq] at e; simp [Res.toOption, e]
-  | err er => rw [hm] at e; simp [Res.map] at e
-  | panic => rw [hm] at e; simp [Res.map] at e
-
-theorem route3 (T : Tables) (x : Locale) (h : x.inv = true) : routeValue T x 3 = some x := by
-  simp only [routeValue, UL.Props.C05.locale_roundtrip x h, Res.toOption]
-
-theorem route4 (T : Tables) (x : Locale) : routeValue T x 4 = some x := rfl
-
-theorem route6 (T : Tables) (x : Locale) (h : x.inv = true) : routeValue T x 6 = some x := by
-  simp only [Locale.inv, LangId.inv, Bool.and_eq_true] at h
-  obtain ⟨⟨⟨⟨hl, hs⟩, hr⟩, _⟩, _⟩ := h
-  have e1 := UL.Parts.fromBytes_of_okLanguage hl
-  have e2 : (x.id.script.bind fun s => (Script.fromBytes s).toOption) = x.id.script := by
-    cases hsc : x.id.script with
-    | none => rfl
-    | some b => rw [hsc] at hs; simp [Option.bind, UL.Parts.fromBytes_of_okScript hs, Res.toOption]
-  have e3 : (x.id.region.bind fun s => (Region.fromBytes s).toOption) = x.id.region := by
-    cases hrg : x.id.region with
-    | none => rfl
-    | some b => rw [hrg] at hr; simp [Option.bind, UL.Parts.fromBytes_of_okRegion hr, Res.toOption]
-  simp only [routeValue, e1, e2, e3]
-
-theorem route7 (T : Tables) (x : Locale) (h : x.inv = true) (k : Nat) (hk : 7 ≤ k) : routeValue T x k = some x := by
-  simp only [Locale.inv, Bool.and_eq_true] at h
-  have hm : ∀ t, t ∈ x.id.variantList.reverse ++ x.id.variantList ↔ t ∈ x.id.variantList := by
-    intro t; simp
-  have e := UL.Props.C17.from_parts_order_irrelevant x.id.language x.id.script x.id.region _ _ hm
-  have e0 := UL.Parts.fromParts_intoParts h.1
-  have : routeValue T x k =
-      some (Locale.fromParts x.id.language x.id.script x.id.region (x.id.variantList.reverse ++ x.id.variantList) (some x.ext)) := by
-    match k, hk with
-    | k + 7, _ => rfl
-  rw [this]
-  simp only [Locale.fromParts, e, Option.getD_some]
-  have : LangId.fromParts x.id.language x.id.script x.id.region x.id.variantList = x.id := by
-    simpa [LangId.intoParts, LangId.variantList] using e0
-  rw [this]
-
-end UL.Props.C12
+import UnicLocale.Props.C12Core
+import UnicLocale.Props.C12Route5
